@@ -54,8 +54,21 @@ pub fn to_listing(
             } else {
                 let mut source_line_emitted = false;
 
-                let chunks = data.chunks(num_bytes_per_line);
-                for chunk in chunks {
+                // A row shows a run of consecutive addresses. A line may emit to several places (e.g. when it's in the
+                // body of a loop), in which case every run starts a new row.
+                let mut chunks: Vec<Vec<(usize, u8)>> = vec![];
+                for (pc, byte) in data {
+                    match chunks.last_mut() {
+                        Some(chunk)
+                            if chunk.len() < num_bytes_per_line
+                                && chunk.last().map(|(last_pc, _)| last_pc + 1) == Some(pc) =>
+                        {
+                            chunk.push((pc, byte));
+                        }
+                        _ => chunks.push(vec![(pc, byte)]),
+                    }
+                }
+                for chunk in chunks.iter() {
                     let pc = chunk.iter().next().unwrap().0;
                     let bytes = chunk.iter().map(|(_, bytes)| bytes).collect_vec();
                     let formatted_bytes = bytes.into_iter().map(|b| format!("{:02X}", b)).join(" ");
